@@ -67,7 +67,17 @@ func (pt *ParsedTable) ToMarkdown() string {
 		sb.WriteString("|")
 		colIdx := 0
 		for _, cell := range row.Cells {
+			span := cell.ColSpan
+			if span < 1 {
+				span = 1
+			}
 			if cell.IsCovered {
+				// A merged-away cell still occupies its grid columns: keep them
+				// as empty cells so that later cells stay in their own column
+				for k := 0; k < span; k++ {
+					sb.WriteString(" |")
+				}
+				colIdx += span
 				continue
 			}
 			// Replace newlines and pipes within cells
@@ -78,9 +88,9 @@ func (pt *ParsedTable) ToMarkdown() string {
 			sb.WriteString(text)
 			sb.WriteString(" |")
 
-			span := cell.ColSpan
-			if span < 1 {
-				span = 1
+			// A cell spanning several columns is followed by empty cells
+			for k := 1; k < span; k++ {
+				sb.WriteString(" |")
 			}
 			colIdx += span
 		}
